@@ -64,6 +64,7 @@ package rfc7523
 //@   requires c != nil && c.Storage != nil && c.Config != nil && c.HandleHelper != nil && request != nil && request.GetClient() != nil
 //@   modifies anyheap, jti_seen
 //@   ensures [C07.jwt-bearer-expiry] err == nil ==> 2 * (request.GetSession().GetExpiresAt(fosite.AccessToken) - ($now + life)) <= 1000000000 && 2 * (($now + life) - request.GetSession().GetExpiresAt(fosite.AccessToken)) <= 1000000000
+//@   ensures [C15.seen-jti-stays-seen] forall j string :: old(jti_seen[j]) ==> jti_seen[j]
 //@   ensures [C15.grant-jti-once] err == nil ==> jti_seen == old(jti_seen) || (exists j string :: j != "" && !old(jti_seen[j]) && jti_seen == upd(old(jti_seen), j, true))
 //@   ensures [C15.grant-jti-once] err == nil && !c.Config.GetGrantTypeJWTBearerIDOptional(ctx) ==> jti_seen != old(jti_seen)
 //@   assert @call(MarkJWTUsedForTime)#1 [C15.grant-verified-before-marked] claims.Expiry != nil && claims.ID != "" && len(claims.Audience) > 0
@@ -71,3 +72,13 @@ package rfc7523
 
 // The handler's collaborators are set when it is composed and never re-assigned (checked over the repository's code).
 //@ wiring Handler : Storage, Config, HandleHelper
+
+// ---------------------------------------------------------------- history lemma (ghost driver in verif_history.go), see DESIGN 0.9
+//@ interface verifEnv.More
+//@ interface verifEnv.Request
+//@   ensures result != nil && result.GetClient() != nil
+//@ func verifHistoryJWTBearer
+//@   requires env != nil && c != nil && c.Storage != nil && c.Config != nil && c.HandleHelper != nil
+//@   modifies everything
+//@   invariant loop#1 [C15.seen-jti-stays-seen] old(jti_seen[jti0]) ==> jti_seen[jti0]
+//@   ensures [C15.seen-jti-stays-seen] old(jti_seen[jti0]) ==> jti_seen[jti0]
